@@ -1768,7 +1768,21 @@ impl<'a> Gen<'a> {
                 // half of these statements may read properties of the entities they update: a
                 // later clause then reads what an earlier clause wrote (reads inside the
                 // writing clause are recognised by the reference and not decided)
-                let read = if self.t.chance(50) { prefix_env } else { read };
+                let reads_entities = self.t.chance(50);
+                let scalar_read = read.clone();
+                let read = if reads_entities { prefix_env.clone() } else { read };
+                // a map replacement followed by a clause that reads the replaced entity
+                if reads_entities && self.t.chance(35) {
+                    let ents = prefix_env.entities();
+                    if !ents.is_empty() {
+                        let (v, _) = ents[self.t.draw(ents.len())];
+                        let v = v.clone();
+                        let map = self.write_props(&scalar_read, 2);
+                        cs.push(Clause::Set { items: vec![SetItem::Replace { target: v.clone(), value: Expr::Map(map) }] });
+                        let (k2, _) = self.key_and_type();
+                        cs.push(Clause::Set { items: vec![SetItem::Prop { target: v.clone(), key: KEYS[K_ANY].to_string(), value: Expr::prop(&v, k2) }] });
+                    }
+                }
                 for _ in 0..n {
                     if self.t.chance(50) {
                         let k = 1 + self.t.draw(2);
